@@ -112,15 +112,6 @@ theorem C09_parameter_order (ta tb : Py.Str) (a b : Rat) (ha : TokOK ta a) (hb :
 example : TokOK "1.5e3".toList 1500 ∧ TokOK "20.50".toList (41 / 2) := by
   refine ⟨⟨?_, ?_, ?_, ?_, ?_⟩, ⟨?_, ?_, ?_, ?_, ?_⟩⟩ <;> decide +kernel
 
-/-- `int` of a whole number is that number -/
-theorem truncRat_nat (n : Nat) : truncRat (n : Rat) = n := by
-  unfold truncRat
-  have h : (n : Rat) ≥ 0 := by exact_mod_cast Nat.zero_le n
-  simp only [h, if_true]
-  have : ((n : Rat)).floor = (n : Int) := by
-    simp [Rat.floor]
-  rw [this]; simp
-
 /-- **C09 (parameter order, unconditional for whole-number parameters)**: for ALL natural numbers `m`, `n` written in decimal digits — no
 side condition left — the six forms are read as the documented family with `m` the first and `n` the second parameter. -/
 theorem C09_parameter_order_nat (m n : Nat) :
